@@ -235,16 +235,20 @@ fn base_document(rng: &mut Rng) -> String {
     if rng.chance(30) { d.push_str("  <key id=\"d1\" for=\"node\" attr.name=\"color\" attr.type=\"string\"/>\n"); }
     d.push_str(&format!("  <graph id=\"G\" edgedefault=\"{}\">\n", if directed { "directed" } else { "undirected" }));
     let n = rng.range(0, 5);
+    // names with multi-byte characters, repeated a random number of times so that byte offsets (and any
+    // slicing of the document by byte position) fall inside characters in some cases
+    let tag: String = match rng.below(4) { 0 => String::new(), 1 => "é".repeat(rng.range(1, 30) as usize), 2 => "日".repeat(rng.range(1, 20) as usize), _ => "😀".repeat(rng.range(1, 12) as usize) };
+    if rng.chance(40) { d.push_str(&format!("  <!-- {} -->\n", "ß".repeat(rng.range(0, 25) as usize))); }
     for i in 0..n {
-        if rng.chance(30) { d.push_str(&format!("    <node id=\"n{}\"><data key=\"d1\">green</data></node>\n", i)); } else { d.push_str(&format!("    <node id=\"n{}\"/>\n", i)); }
+        if rng.chance(30) { d.push_str(&format!("    <node id=\"n{}{}\"><data key=\"d1\">green</data></node>\n", i, tag)); } else { d.push_str(&format!("    <node id=\"n{}{}\"/>\n", i, tag)); }
     }
     if n > 0 {
         for _ in 0..rng.range(0, 6) {
             let (u, v) = (rng.below(n as u64), rng.below(n as u64));
             match rng.below(4) {
-                0 => d.push_str(&format!("    <edge source=\"n{}\" target=\"n{}\"/>\n", u, v)),
-                1 => d.push_str(&format!("    <edge id=\"e\" source=\"n{}\" target=\"n{}\"></edge>\n", u, v)),
-                _ => d.push_str(&format!("    <edge source=\"n{}\" target=\"n{}\">\n      <data key=\"{}\">{}</data>\n    </edge>\n", u, v, wkey, *rng.pick(&["1.5", "2", "0.25", "1e3", "-4", "inf"]))),
+                0 => d.push_str(&format!("    <edge source=\"n{}{t}\" target=\"n{}{t}\"/>\n", u, v, t = tag)),
+                1 => d.push_str(&format!("    <edge id=\"e\" source=\"n{}{t}\" target=\"n{}{t}\"></edge>\n", u, v, t = tag)),
+                _ => d.push_str(&format!("    <edge source=\"n{}{t}\" target=\"n{}{t}\">\n      <data key=\"{}\">{}</data>\n    </edge>\n", u, v, wkey, *rng.pick(&["1.5", "2", "0.25", "1e3", "-4", "inf"]), t = tag)),
             }
         }
     }
